@@ -3,6 +3,8 @@ package checks
 import (
 	"encoding/json"
 	"fmt"
+	"os"
+	"path/filepath"
 	"strings"
 	"time"
 
@@ -41,7 +43,7 @@ type roLine struct {
 var roCaller = map[string]string{"root": "root", "admin": "c3adm", "userplus-owner": "c3upo", "user-owner": "c3uso", "user-grantee": "c3usg"}
 
 func C15(c *core.Ctx, replay string) {
-	c.Rule = "TLC enumerates every S3 route of the route table ApiRoutes x caller (root, admin, userplus owner, user owner, policy grantee) x target variant (current, an older version, copy from another bucket); a storage populated through a read-write gateway (objects with versions, tags, open multipart uploads with a part, bucket settings, lock-enabled versioned buckets) is then served by a gateway started in read-only mode; every vector is one real request, sent in three passes (the enumeration's order; every mutating route once more with each of 16 stray second sub-resource parameters by root, the grantee (and at the thorough tier the user owner); per caller all reads first and then all mutating requests); the storage must be byte-identical afterwards, mutating routes must be refused with a 4xx, and read routes must answer as they did read-write. Each observation is validated by TLC against ReadOnly!ObsClass. Non-trivial: a vector whose route is mutating."
+	c.Rule = "TLC enumerates every S3 route of the route table ApiRoutes x caller (root, admin, userplus owner, user owner, policy grantee) x target variant (current, an older version, copy from another bucket; object reads of an implicit directory key and of a file put there without the gateway; CreateBucket for a directory that exists without attributes); a storage populated through a read-write gateway (objects with versions, tags, open multipart uploads with a part, bucket settings, lock-enabled versioned buckets) is then served by a gateway started in read-only mode; every vector is one real request, sent in three passes (the enumeration's order; every mutating route once more with each of 16 stray second sub-resource parameters by root, the grantee (and at the thorough tier the user owner); per caller all reads first and then all mutating requests); the storage must be byte-identical afterwards, mutating routes must be refused with a 4xx, and read routes must answer as they did read-write. Each observation is validated by TLC against ReadOnly!ObsClass. Non-trivial: a vector whose route is mutating."
 	c.Assumptions = []string{"admin account-management routes are not S3 API requests (outside the statement)", "the storage is compared byte-wise incl. user xattrs over the root and the versioning directory (and the sidecar directory when used)"}
 	res, err := tlc.Run(c.Scratch, tlc.Opts{Module: "ROVec"})
 	if err != nil || !res.OK {
@@ -120,6 +122,12 @@ func C15(c *core.Ctx, replay string) {
 				c.Logf("short retention on %s/%s not set: %v", b, FixKey1, r)
 			}
 		}
+		// state the API never produces by itself: a file put into the bucket directories
+		// without the gateway, and a bucket directory without any attribute
+		for _, b := range []string{"roa", "rob"} {
+			os.WriteFile(filepath.Join(env.Cfg.Root, b, "rawfile.bin"), []byte("put here without the gateway"), 0o644)
+		}
+		os.MkdirAll(filepath.Join(env.Cfg.Root, "ro-orphan"), 0o755)
 		if err := fx.SaveTemplate(); err != nil {
 			c.Inconclusive("template: %v", err)
 			env.Close()
@@ -142,7 +150,18 @@ func C15(c *core.Ctx, replay string) {
 			if v.Route == "CreateBucket" {
 				t.Bucket = "ro-new-bucket"
 			}
+			switch v.Variant {
+			case "implicit-dir":
+				t.Key = "d/" // FixKey1 / FixKey2 live below it; it was never put as an object
+			case "raw-file":
+				t.Key = "rawfile.bin"
+			case "orphan", "orphan-lock":
+				t.Bucket = "ro-orphan"
+			}
 			req := rt.Build(t)
+			if v.Variant == "orphan-lock" {
+				req.Headers = append(req.Headers, s3c.KV{K: "x-amz-bucket-object-lock-enabled", V: "true"})
+			}
 			if v.Stray != "" {
 				for _, kv := range strings.Split(v.Stray, "&") {
 					k, val, _ := strings.Cut(kv, "=")
@@ -174,6 +193,12 @@ func C15(c *core.Ctx, replay string) {
 		}
 		// (2) the same storage served read-only
 		env.GW.Stop()
+		// (whatever the reads of the read-write pass may have written - a lazily stored
+		// attribute, say - is taken back: the read-only pass starts from the saved storage)
+		if err := fx.Restore(); err != nil {
+			c.Inconclusive("restore before the read-only pass: %v", err)
+			return
+		}
 		cfg := env.Cfg
 		cfg.ReadOnly = true
 		g, err := gw.Start(cfg)
